@@ -8,8 +8,9 @@ import H3.Lemmas.Headers
     `fs : List (List Nat × List Nat)` — no bound on length, names or values — and for every
     instance `H` of the abstract `http` URI machinery satisfying `HttpLaws`.
 
-    The proofs evaluate three generated constants (`nameRejectsDquote`, `mapFallible`,
-    `trailersRefusePseudo`); on a tree where one of them is `false` this file does not build. -/
+    The proofs evaluate four generated constants (`nameRejectsDquote`, `mapFallible`,
+    `trailersRefusePseudo` must be `true`, `mapPresizeRefuses` must be `false`); on a tree where one
+    of them has the other value this file does not build. -/
 namespace H3.Props.C12
 open H3.Headers H3.Spec.Headers H3.Gen
 
@@ -266,6 +267,64 @@ theorem C12_malformed_trailers_refused (H : Http) (fs : List FieldLine) (hbad : 
     have := C12_refusal_is_message_error e
     exact ⟨e, rfl, this.2.2.2.2.2.2.2.2.1, this.2.2.2.2.2.2.2.2.2.1⟩
 
+/-! ## the capacity of `http::HeaderMap` -/
+
+/-- `Header::try_from` no longer refuses a section for the number of its fields (D-01, repaired:
+    `try_from` is the loop; a map that cannot be pre-sized starts empty).  What remains is the
+    limit of `http::HeaderMap` itself, 24576 distinct names (`hmMaxEntries`; `try_append` fails when
+    it is called on a map that already holds that many, `hmTryAppend`): a header map handed over
+    holds at most that many names, and a section whose regular fields carry more distinct names is
+    refused — with a `HeaderError` (H3_MESSAGE_ERROR on the stream, `C12_refusal_is_message_error`),
+    never a panic (D-12b). -/
+theorem C12_map_capacity (H : Http) (fs : List FieldLine) :
+    (∀ r, recvRequest H fs = .ok r → r.headers.length ≤ hmMaxEntries) ∧
+    (∀ st m, recvResponse H fs = .ok (st, m) → m.length ≤ hmMaxEntries) ∧
+    (∀ m, recvTrailers H fs = .ok m → m.length ≤ hmMaxEntries) ∧
+    (∀ ns : List Bytes, ns.Nodup → hmMaxEntries < ns.length →
+      (∀ n ∈ ns, ¬ IsPseudo n ∧ ∃ v, (n, v) ∈ fs) →
+      (∃ e, recvRequest H fs = .err e) ∧ (∃ e, recvResponse H fs = .err e) ∧
+      (∃ e, recvTrailers H fs = .err e)) := by
+  refine ⟨?_, ?_, ?_, ?_⟩
+  · intro r h
+    unfold recvRequest at h
+    cases e : tryFrom H fs with
+    | err x => rw [e] at h; cases h
+    | panic => rw [e] at h; cases h
+    | ok hd =>
+      rw [e] at h
+      simp only [Res.bind] at h
+      obtain ⟨_, _, _, _, _, _, _, rh⟩ := intoRequestParts_ok h
+      rw [rh]; exact tryFrom_cap e
+  · intro st m h
+    unfold recvResponse at h
+    cases e : tryFrom H fs with
+    | err x => rw [e] at h; cases h
+    | panic => rw [e] at h; cases h
+    | ok hd =>
+      rw [e] at h
+      simp only [Res.bind, Header.intoResponseParts] at h
+      split at h
+      · cases h
+      · cases h; exact tryFrom_cap e
+  · intro m h
+    unfold recvTrailers at h
+    cases e : tryFrom H fs with
+    | err x => rw [e] at h; cases h
+    | panic => rw [e] at h; cases h
+    | ok hd =>
+      rw [e] at h
+      simp only [Res.bind, Header.intoTrailers] at h
+      split at h
+      · cases h
+      · cases h; exact tryFrom_cap e
+  · intro ns hnd hlen hocc
+    obtain ⟨e, he⟩ := tryFrom_too_many_names (H := H) ns hnd hlen hocc
+    exact ⟨⟨e, by simp [recvRequest, he, Res.bind]⟩, ⟨e, by simp [recvResponse, he, Res.bind]⟩,
+      ⟨e, by simp [recvTrailers, he, Res.bind]⟩⟩
+
+example : hmTryAppend (List.replicate 3 ([120], [[49]])) [121] [50] =
+    some (List.replicate 3 ([120], [[49]]) ++ [([121], [[50]])]) := by decide
+
 /-! ## sent messages -/
 
 /-- what `HeaderName` guarantees of the names in a caller's `HeaderMap` -/
@@ -446,11 +505,31 @@ example : recvRequest toy [(nAuthority, aCom)] = .err .missingMethod := by decid
 example : recvRequest toy [(nMethod, GET)] = .err .missingAuthority := by decide
 example : recvRequest toy [(nMethod, GET), (nHost, [])] = .err .invalidRequest := by decide
 example : recvRequest toy [(nMethod, GET), (nAuthority, aCom), (nHost, [98])] = .err .contradictedAuthority := by decide
-/-- 24577 fields or more: refused, no panic -/
-example (fs : List FieldLine) (h : fs.length ≥ 24577) : recvRequest toy fs = .err .invalidRequest := by
-  have hc : capacityOverflow fs.length = true := by simp only [capacityOverflow, decide_eq_true_eq]; omega
-  have hm : Headers.mapFallible = true := rfl
-  simp [recvRequest, tryFrom, hc, hm, Res.bind]
+/-- the number of fields is no limit (D-01, repaired): any number of values under one name is
+    handed over, in order -/
+example (k : Nat) : recvTrailers toy (List.replicate (k + 1) ([120], [49])) =
+    .ok [([120], List.replicate (k + 1) [49])] := by
+  have hp : Field.parse toy [120] [49] = .ok (.header [120] [49]) := by decide
+  have key : ∀ (k : Nat) (vs : List Bytes), vs ≠ [] →
+      tryFromLoop toy { fields := [([120], vs)] } (List.replicate k ([120], [49])) =
+        .ok { fields := [([120], vs ++ List.replicate k [49])] } := by
+    intro k
+    induction k with
+    | zero => intro vs _; simp [tryFromLoop]
+    | succ k ih =>
+      intro vs hvs
+      simp only [List.replicate_succ, tryFromLoop, hp]
+      have hfull : Header.full { fields := [([120], vs)] } (.header [120] [49]) = false := by
+        simp [Header.full, hmMaxEntries]
+      rw [hfull]
+      simp only [Bool.false_eq_true, if_false, Header.add, hmAppend, if_true]
+      rw [ih (vs ++ [[49]]) (by simp)]
+      simp
+  have hfull0 : Header.full {} (.header [120] [49]) = false := by decide
+  simp only [recvTrailers, tryFrom_eq_loop, List.replicate_succ, tryFromLoop, hp, hfull0,
+    Bool.false_eq_true, if_false, Header.add, hmAppend]
+  rw [key k [[49]] (by simp)]
+  simp [Res.bind, Header.intoTrailers]
 /-- responses and trailers -/
 example : recvResponse toy [(nStatus, [50, 48, 52]), ([120], [49])] = .ok (204, [([120], [[49]])]) := by decide
 example : recvResponse toy [([120], [49])] = .err .missingStatus := by decide
